@@ -881,6 +881,8 @@ func c07Inputs(c *Check) {
 	}
 	// the SPF / DKIM results DMARC evaluates are part of the check results: none is dropped on the way to the merge
 	c06ResultsKept(c, "R9b")
+	c07PublicSuffixInputs(c)
+	c07FromFieldCount(c)
 	// the quarantine action of the DMARC verdict is a flag on the message metadata: every target must hold the object it is set on
 	c.Rule("R9c", "the quarantine action reaches the targets: targets keep, and the pipeline hands them, the metadata object the verdict is written to (C06.R5, C06.R5c)", 2)
 	{
@@ -1025,4 +1027,158 @@ func c07DomainComparisons(c *Check) {
 		msg = "undecided: expected two name parameters and at least two returns"
 	}
 	c.Hold("R7", "isAligned:answers", ia.FI.Decl.Pos(), msg == "", msg)
+}
+
+
+// R7b: golang.org/x/net/publicsuffix is case-sensitive: for "victim.CO.UK" it knows no suffix "UK" rule other than the
+// default and answers "CO.UK" as the organizational domain – for every name under co.uk written in upper case. Two
+// unrelated registrations are then "aligned" in relaxed mode (dmarc=pass for a forged From), and the policy lookup
+// falls back to _dmarc.CO.UK. Every name handed to the package is therefore lower-cased first.
+func c07PublicSuffixInputs(c *Check) {
+	c.Rule("R7b", "internal/dmarc: every name handed to publicsuffix.PublicSuffix / EffectiveTLDPlusOne is the result of a lower-casing call on every path (the list is case-sensitive; an upper-case spelling gives every name under a multi-label suffix the same organizational domain)", 3)
+	p := c.P
+	pk := p.Pkg("internal/dmarc")
+	if pk == nil {
+		c.Fail("R7b", "package", token.NoPos, "anchor unresolved")
+		return
+	}
+	n := 0
+	for _, fi := range funcsOfPkgs(p, "internal/dmarc") {
+		info := fi.Info()
+		var r *RuleCtx
+		ord := 0
+		for _, call := range callsIn(fi.Decl.Body) {
+			fn := callee(info, call)
+			if fn == nil || fn.Pkg() == nil || fn.Pkg().Path() != "golang.org/x/net/publicsuffix" || len(call.Args) != 1 {
+				continue
+			}
+			n++
+			ord++
+			c.SawFunc(fi.Name())
+			if r == nil {
+				r = c.CtxOf(fi)
+			}
+			key := fi.Name() + ":" + fn.Name() + itoa(ord)
+			at, found := r.F.PtOfNode(call)
+			lowered := func(e ast.Expr) bool {
+				lc, ok := ast.Unparen(e).(*ast.CallExpr)
+				if !ok {
+					return false
+				}
+				return isCall(info, lc, "strings.ToLower", "~/framework/dns.LowerASCII", "~/framework/dns.ForLookup", "~/framework/address.ForLookup") || containsFold(exprStr(lc.Fun), "tolower") || containsFold(exprStr(lc.Fun), "lowerascii")
+			}
+			var judge func(e ast.Expr, pt Pt, depth int) string
+			judge = func(e ast.Expr, pt Pt, depth int) string {
+				if lowered(e) {
+					return ""
+				}
+				if v, ok := objOf(info, e).(*types.Var); ok && !v.IsField() && depth < 3 && found {
+					defs, okD := r.ReachingDefs(v, pt, nil)
+					if okD && len(defs) > 0 && !(isParamOrResult(fi, v) && func() bool {
+						// a parameter is also "defined" by the call: only if every path passes one of the definitions
+						_, skip := r.F.Reach(Query{From: r.Entry(), Inclusive: true, Target: func(q Pt) bool { return q == pt }, Avoid: func(q Pt) bool { return q != pt && q.Node() != nil && assignsObj(info, q.Node(), v) }})
+						return skip
+					}()) {
+						for _, d := range defs {
+							dp, okP := r.F.PtOfNode(d)
+							if !okP {
+								dp = pt
+							}
+							if m := judge(d, dp, depth+1); m != "" {
+								return m
+							}
+						}
+						return ""
+					}
+				}
+				return exprStr(e)
+			}
+			bad := judge(call.Args[0], at, 0)
+			c.Hold("R7b", key, call.Pos(), bad == "", "publicsuffix."+fn.Name()+" is given "+bad+" as the caller spelled it: for `victim.CO.UK` the case-sensitive list answers CO.UK – every name under co.uk written in upper case gets the same organizational domain, so `From: ceo@victim.CO.UK` authenticated only by attacker.CO.UK is 'aligned' (dmarc=pass), and the policy is looked up at _dmarc.CO.UK")
+		}
+	}
+	if n < 3 {
+		c.Fail("R7b", "calls", token.NoPos, "undecided: fewer than three uses of the public suffix list in internal/dmarc")
+	}
+}
+
+// R10: "several From fields never obtain a pass". ExtractFromDomain walks the From fields and refuses the second one.
+// Whether a field was already seen must not be read off the value collected so far: an empty first field
+// (`From:` CRLF `From: <x@attacker.example>`) would leave the collector empty and the second field would be taken for
+// the first. The state that distinguishes "first" from "further" is a flag or counter set to a constant / incremented.
+func c07FromFieldCount(c *Check) {
+	c.Rule("R10", "ExtractFromDomain: inside the loop over the From fields, whether a field was seen before is decided by a flag or counter assigned a constant (or incremented) for every field – not by comparing the collected field value with the empty string", 1)
+	r := c.need("R10", "internal/dmarc", "", "ExtractFromDomain")
+	if r == nil {
+		return
+	}
+	info := r.Info
+	msg := "undecided: no loop over the From fields found"
+	ast.Inspect(r.FI.Decl.Body, func(x ast.Node) bool {
+		var body *ast.BlockStmt
+		switch l := x.(type) {
+		case *ast.ForStmt:
+			body = l.Body
+		case *ast.RangeStmt:
+			body = l.Body
+		default:
+			return true
+		}
+		// a loop that reads field values
+		reads := false
+		for _, call := range callsIn(body) {
+			if methodName(call) == "Value" || methodName(call) == "Raw" {
+				reads = true
+			}
+		}
+		if !reads {
+			return true
+		}
+		msg = ""
+		// variables assigned in the loop from the field's value
+		fromValue := map[types.Object]bool{}
+		ast.Inspect(body, func(y ast.Node) bool {
+			if as, ok := y.(*ast.AssignStmt); ok && len(as.Lhs) == len(as.Rhs) {
+				for i, l := range as.Lhs {
+					if call, ok := ast.Unparen(as.Rhs[i]).(*ast.CallExpr); ok && (methodName(call) == "Value" || methodName(call) == "Raw") {
+						if o := objOf(info, l); o != nil {
+							fromValue[o] = true
+						}
+					}
+				}
+			}
+			return true
+		})
+		ast.Inspect(body, func(y ast.Node) bool {
+			is, ok := y.(*ast.IfStmt)
+			if !ok {
+				return true
+			}
+			ast.Inspect(is.Cond, func(z ast.Node) bool {
+				be, ok := z.(*ast.BinaryExpr)
+				if !ok || (be.Op != token.EQL && be.Op != token.NEQ) {
+					return true
+				}
+				for _, side := range [][2]ast.Expr{{be.X, be.Y}, {be.Y, be.X}} {
+					if o := objOf(info, side[0]); o != nil && fromValue[o] {
+						if s, isConst := constString(info, side[1]); isConst && s == "" {
+							msg = "whether a From field was already seen is decided by `" + exprStr(be) + "`, i.e. by the value of the fields read so far: an empty first From field leaves it true, the second field is taken for the first and a header with two From fields gets a verdict (even a pass) for the second one's domain"
+						}
+					}
+				}
+				// len(v) == 0
+				if call, ok := ast.Unparen(be.X).(*ast.CallExpr); ok && len(call.Args) == 1 {
+					if id, isID := call.Fun.(*ast.Ident); isID && id.Name == "len" {
+						if o := objOf(info, call.Args[0]); o != nil && fromValue[o] {
+							msg = "whether a From field was already seen is decided by the length of the value read so far (" + exprStr(be) + "): an empty first From field hides the second one"
+						}
+					}
+				}
+				return true
+			})
+			return true
+		})
+		return false
+	})
+	c.Hold("R10", "ExtractFromDomain:seen-state", r.FI.Decl.Pos(), msg == "", msg)
 }
